@@ -44,7 +44,8 @@ def judge(data, base, seq=None, devs=None):
     r_lognh = run(data, base, 1, False, devs)
     r_raise = run(data, base, 2, True, devs)
     r_raisenh = run(data, base, 2, False, devs)
-    n = 6
+    r_logobj = run(data, base, 1, "object", devs)  # the handler is a callable *object* that is falsy (an empty collection)
+    n = 7
     for name, r in (("ignore", r_ign), ("ignore+h", r_ignh), ("log", r_log), ("log-nohandler", r_lognh)):
         if r.raised is not None:
             out.append((f"raised_under_{name}|{type(r.raised).__name__}", str(r.raised)))
@@ -64,6 +65,8 @@ def judge(data, base, seq=None, devs=None):
         out.append(("log_records_differ_from_handler_calls", f"records={r_lognh.logrecs[:3]} handler={[exc_sig(e) for e in r_log.errors][:3]}"))
     if r_log.logrecs:
         out.append(("handler_and_logger_both_used", f"{r_log.logrecs[:2]}"))
+    if r_logobj.raised is not None or [exc_sig(e) for e in r_logobj.errors] != [exc_sig(e) for e in r_log.errors] or item_sigs(r_logobj) != i_log or r_logobj.logrecs:
+        out.append(("handler_object_treated_differently_from_handler_function", f"object handler: {len(r_logobj.errors)} calls, {len(r_logobj.logrecs)} log records; function handler: {len(r_log.errors)} calls"))
     # by construction (boundary-preserving sequences): one handler call per rejected token, in order
     if seq is not None and not devs and all(TOKENS[t][1] != "frag" for t in seq):
         table = vt(base)
@@ -181,7 +184,7 @@ def run_tier(tier, t0):
         PROP, tier, acc, t0, replay_case,
         rule=(
             f"every byte string of length<={L}; every sequence of <= {k} frame/noise tokens (by-construction handler-event oracle) and of <= {kf} "
-            f"tokens incl. fragments (differential only) x quitonerror(3) x handler present/absent; plus, for every sequence of <= 2 tokens starting with a frame, every single short read (the i-th stream call answered with 1 or 2 bytes although more data follows) x {len(BASES)} base configurations. "
+            f"tokens incl. fragments (differential only) x quitonerror(3) x handler present/absent (function; under ERR_LOG also a callable object that is falsy); plus, for every sequence of <= 2 tokens starting with a frame, every single short read (the i-th stream call answered with 1 or 2 bytes although more data follows) x {len(BASES)} base configurations. "
             "distinct_nontrivial = distinct (items delivered?, handler calls capped at 3) classes"
         ),
         assumptions=[
